@@ -683,10 +683,16 @@ fn piped_scenario(bytes: &[u8], trace: bool) {
         let mut nsent = 0usize;
         for op in ws {
             match op {
-                POp::Recv => match link.recv() {
-                    Some(v) => wlog2.lock().unwrap().push((0, v, tick())),
-                    None => wlog2.lock().unwrap().push((1, 0, tick())),
-                },
+                POp::Recv => {
+                    let b = tick();
+                    match link.recv() {
+                        Some(v) => {
+                            wlog2.lock().unwrap().push((4, v, b));
+                            wlog2.lock().unwrap().push((0, v, tick()));
+                        }
+                        None => wlog2.lock().unwrap().push((1, 0, tick())),
+                    }
+                }
                 POp::Send => {
                     let v = 100 + nsent;
                     nsent += 1;
@@ -760,6 +766,7 @@ fn piped_scenario(bytes: &[u8], trace: bool) {
                 0 => format!("worker recv() -> Some({}) at clock {}", e.1, e.2),
                 1 => format!("worker recv() -> None at clock {}", e.2),
                 2 => format!("worker send() -> {} (began at clock {})", e.1 == 1, e.2),
+                4 => format!("worker recv() that will return Some({}) began at clock {}", e.1, e.2),
                 _ => format!("worker cancel() -> {} (clock {})", e.1 == 1, e.2),
             });
         }
@@ -789,6 +796,7 @@ fn piped_scenario(bytes: &[u8], trace: bool) {
     }
     for e in wl.iter().filter(|e| e.2 > drop_end) {
         match e.0 {
+            4 => violation = Some(format!("recv() began after the PipedThread drop had returned and still returned Some({})", e.1)),
             2 if e.1 == 1 => violation = Some("PipedLink::send began after the PipedThread drop had returned and still returned true".into()),
             3 if e.1 == 0 => violation = Some("cancel() returned false after the PipedThread drop had returned".into()),
             _ => {}
